@@ -122,6 +122,15 @@ def gen_case(rng, nmax=40, estimators=ESTIMATORS, binnings=BINNINGS, allow_spars
     return case
 
 
+def recycle(buf):
+    """the caller re-uses the buffer it built a MetricSpace from (the space describes the points it was given,
+    its distances are computed lazily): overwrite it in place"""
+    if buf.dtype.kind == 'f':
+        buf[...] = buf[::-1] * 1.75 + 3.0
+    else:
+        buf[...] = buf[::-1] + 1
+
+
 def build(case, **extra):
     """construct the real Variogram for a case (fit disabled unless requested)"""
     coords = np.array(case['coords'], dtype=float).astype(case.get('coord_dtype', 'float64'))
@@ -133,7 +142,9 @@ def build(case, **extra):
     kw.setdefault('fit_method', None)
     if case.get('storage') == 'ms':
         c2 = coords if coords.ndim == 2 else np.column_stack((coords, np.zeros(len(coords))))
-        ms = MetricSpace(c2.copy(), kw.get('dist_func', 'euclidean'))
+        buf = c2.copy()
+        ms = MetricSpace(buf, kw.get('dist_func', 'euclidean'))
+        recycle(buf)
         with quiet():
             return Variogram(ms, values, **kw)
     with quiet():
